@@ -1,11 +1,13 @@
 #!/bin/bash
 # seed_all.sh: re-run every seeded change against the current machinery (quick tier); one line each in seeded/REGRESSION.txt
-cd /verif
+cd "$(dirname "$0")"/..
+V=$(pwd)
+export SEED_SKIP_SUITE=1
 out=seeded/REGRESSION.txt; : > $out
 for d in seeded/*/; do
   n=$(basename $d); prop=${n%%-*}; name=${n#*-}
   extra=$(python3 -c "import json;m=json.load(open('$d/meta.json'));print(' '.join(p for p in m.get('check_results',{}) if p!='$prop'))")
-  tools/ev.sh $prop /verif/seeded/$n $name $extra | cut -c1-400 >> $out
+  tools/ev.sh $prop $V/seeded/$n $name $extra | cut -c1-400 >> $out
 done
-rm -rf /verif/replays
+rm -rf $V/replays
 grep -c "caught_by= \[\]" $out
